@@ -129,7 +129,14 @@ impl Database {
         let had_frames = current_offset > 0;
 
         if had_frames {
+            // the frames about to be discarded may be the only durable copy of acknowledged
+            // writes (autocommit never msyncs the tables): make the table files durable first,
+            // and make the truncation itself durable before new frames can follow it
+            file_manager
+                .sync_all()
+                .wrap_err("failed to sync table files before truncating the WAL")?;
             wal.truncate()?;
+            wal.sync()?;
         }
 
         Ok(CheckpointInfo {
